@@ -215,6 +215,86 @@ def big_frame_leg(c, wd):
     sys.modules.pop(mod.__name__, None)
 
 
+LOGGER_MOD = '''from deep.api.plugin import TracepointLogger, Plugin
+
+SEEN = {'A': [], 'B': []}
+
+
+class _Base(TracepointLogger):
+    tag = '?'
+
+    def __init__(self, config=None):
+        Plugin.__init__(self, name='Logger' + self.tag, config=config)
+
+    def is_active(self):
+        return True
+
+    def order(self):
+        return -5
+
+    def log_tracepoint(self, log_msg, tp_id, ctx_id):
+        SEEN[self.tag].append((log_msg, tp_id, ctx_id))
+
+
+class LoggerA(_Base):
+    tag = 'A'
+
+
+class LoggerB(_Base):
+    tag = 'B'
+'''
+
+
+def configured_logger_leg(c, wd):
+    """Agents configured one after the other in one process, each with its OWN tracepoint logger plugin (PLUGINS): an
+    agent's message goes to the logger configured for that agent."""
+    import importlib
+    from deep.api.plugin import load_plugins
+    from deep.config import ConfigService
+    from deep.config.tracepoint_config import TracepointConfigService
+    modname = 'vlogmods_%d' % (abs(hash(wd)) % 100000)
+    with open('%s/%s.py' % (wd, modname), 'w') as fh:
+        fh.write(LOGGER_MOD)
+    sys.path.insert(0, wd)
+    host = R.write_host(wd, HOST)
+    mod, path, marks = host
+    base = path.rsplit('/', 1)[-1]
+    try:
+        lm = importlib.import_module(modname)
+        for life, tag in enumerate(['A', 'B', 'A', 'B'], 1):
+            cfg = ConfigService({'PLUGINS': ['%s.Logger%s' % (modname, tag)]}, tracepoints=TracepointConfigService())
+            plugins = load_plugins(cfg, cfg.PLUGINS)
+            for k in lm.SEEN:
+                del lm.SEEN[k][:]
+            rg = R.Rig(plugins=plugins)
+            bad = None
+            try:
+                rg.install([{'id': 'tp-own', 'path': base, 'line': marks['greet'],
+                             'args': {'log_msg': 'agent %d says {a}' % life, 'snapshot': 'no_collect'}}])
+                res = rg.run(mod.greet, 9, only_file=path)
+                names = [type(p).__name__ for p in plugins if type(p).__name__.startswith('Logger')]
+                other = 'B' if tag == 'A' else 'A'
+                if res != ('ok', 9) or rg.escaped:
+                    bad = 'host changed / handler raised: %r %r' % (res, rg.escaped)
+                elif names != ['Logger' + tag]:
+                    bad = 'agent %d (PLUGINS = [Logger%s]) loaded the logger plugins %s' % (life, tag, names)
+                elif [m_[0] for m_ in lm.SEEN[tag]] != ['[deep] agent %d says 9' % life] or lm.SEEN[other]:
+                    bad = 'agent %d (its logger: Logger%s): Logger%s received %s, Logger%s received %s' % (
+                        life, tag, tag, lm.SEEN[tag], other, lm.SEEN[other])
+            finally:
+                rg.close()
+            c.traces_validated += 1
+            c.note_case(key=('configured-logger', life), nontrivial=True)
+            if bad:
+                p_ = c.save_replay({'direction': 'S2C', 'module': 'LogTemplate', 'kind': 'configured-logger', 'what': bad})
+                c.violation('the tracepoint logger configured for an agent: %s' % bad, p_)
+                break
+    finally:
+        sys.path.remove(wd)
+        sys.modules.pop(modname, None)
+        sys.modules.pop(mod.__name__, None)
+
+
 def run(c):
     quick = c.tier == 'quick'
     rng = random.Random(c.seed)
@@ -273,6 +353,7 @@ def run(c):
         if shown >= 8:
             break
     big_frame_leg(c, wd)
+    configured_logger_leg(c, wd)
     c.sample({'direction': 'S2C', 'module': 'LogTemplate', 'tokens': templates[0],
               'template': ''.join(TEXT[t] for t in templates[0])})
     sys.modules.pop(host[0].__name__, None)
